@@ -14,7 +14,7 @@ import ast
 from ..astutil import call_name, calls, kwarg, u
 from ..formula import atoms_of, contains_key, extract, spec
 from ..model import AnalysisError
-from ..termflow import ADict, Poly, Unsupported, equivalent, key_atom, poly_from_key, show, show_key, vkey
+from ..termflow import ADict, Poly, Unsupported, Valuation, _close_vals, equivalent, key_atom, poly_from_key, show, show_key, vkey
 
 PT = "process_trace.process_trace."
 # helpers that are analysed on their own (or trusted): keep them as uninterpreted calls in callers
@@ -33,6 +33,71 @@ def _eq(a, b):
         raise AnalysisError("terms cannot be compared: %s" % e)
 
 
+class _OrderedValuation(Valuation):
+    """Random interpretation in which `<` / `<=` are the real order on the (random) values of their
+    operands instead of independent coin flips.  Two spellings of one scan (`if a <= best: continue` /
+    `if best < a: update`, or a different nesting of the running maximum) then evaluate alike, while
+    `<` for `>` still differs.  Random reals never tie, so `>` and `>=` coincide: ties are outside C11."""
+
+    def rand(self, key):
+        # scores are log-probabilities: draw values of both signs so that a scan started at 0 differs from one started at -inf
+        return -1.0 + 2.0 * self._h(("val", key))
+
+    def truth(self, g):
+        if isinstance(g, tuple) and g and g[0] == "cmp" and g[1] in ("<", "<="):
+            a, b = self.value_of_key(g[2]), self.value_of_key(g[3])
+            if isinstance(a, (int, float)) and isinstance(b, (int, float)):
+                return a < b or (g[1] == "<=" and a == b)
+        return super().truth(g)
+
+
+def _eq_ordered(a, b, trials=64):
+    """Equality under the ordered interpretation (a fallback after `equivalent`): every trial must agree."""
+    done = 0
+    for t in range(trials):
+        val = _OrderedValuation(t, salt="ordered")
+        try:
+            va, vb = val.value(a), val.value(b)
+        except (ValueError, OverflowError, ZeroDivisionError):
+            continue
+        done += 1
+        if not _close_vals(va, vb):
+            return False
+    if done < trials // 2:
+        raise AnalysisError("terms could not be evaluated under the ordered interpretation")
+    return True
+
+
+def _same(a, b):
+    return _eq(a, b) or _eq_ordered(a, b)
+
+
+def _scan_functions(prog, f):
+    """f and the same-module helpers it calls (transitively), except those analysed on their own."""
+    out, todo = [], [f]
+    while todo:
+        g = todo.pop()
+        if g in out:
+            continue
+        out.append(g)
+        for c in calls(g.node):
+            if isinstance(c.func, ast.Name) and c.func.id not in NI:
+                h = prog.resolve_function(c.func.id, g.module)
+                if h is not None and h.module is f.module and h not in out:
+                    todo.append(h)
+    return out
+
+
+def _loops_and_exits(prog, f):
+    loops, early = [], []
+    for g in _scan_functions(prog, f):
+        for l in ast.walk(g.node):
+            if isinstance(l, (ast.For, ast.While)):
+                loops.append(l)
+                early += [(g, n) for n in ast.walk(l) if isinstance(n, (ast.Break, ast.Return))]
+    return loops, early
+
+
 def _is_polykey(k):
     return isinstance(k, tuple) and len(k) >= 1 and k[0] == "poly"
 
@@ -43,6 +108,16 @@ def _atom(k):
     while a is not None and a[0] == "val":
         a = key_atom(a[1])
     return a
+
+
+def _base_key(k):
+    """Key of the object itself, looking through `upd` wrappers (the engine rebinds a local to
+    `upd(method, object, args)` after an effect-only call such as df.insert(...) or df.to_csv(...))."""
+    a = _atom(k)
+    while a is not None and a[0] == "upd":
+        k = a[2]
+        a = _atom(k)
+    return k
 
 
 def _str_of_key(k):
@@ -206,12 +281,12 @@ def rule_A1(ctx):
     prog = ctx.prog
     ctx.rule("A1", "MAP (joint-likelihood): the scan ranges over all chains and all entries, keeps (score, entry, chain) together under `>`/`>=` from -inf, and restores exactly the entry the pointer names", 4)
     f = prog.fn(PT + "write_map_results")
-    loops = [n for n in ast.walk(f.node) if isinstance(n, (ast.For, ast.While))]
+    loops, early = _loops_and_exits(prog, f)
     if not loops:
         raise AnalysisError("write_map_results contains no loop: the arg-max is not a scan (e.g. a max()-based rewrite) and is not recognised")
-    early = [n for l in loops for n in ast.walk(l) if isinstance(n, (ast.Break, ast.Return))]
     if early:
-        ctx.fail("A1", "write_map_results: the scan has no early exit", f.where(early[0]), "a `%s` inside the scan loop stops the arg-max before every entry of every chain has been compared" % u(early[0]), construct=f.qualname, stmt="early exit in scan")
+        g, n = early[0]
+        ctx.fail("A1", "write_map_results: the scan has no early exit", g.where(n), "a `%s` inside the scan loop stops the arg-max before every entry of every chain has been compared" % u(n), construct=g.qualname, stmt="early exit in scan")
         _lower_min(ctx, "A1")
         ctx.analysed(f)
         return
@@ -228,7 +303,7 @@ def rule_A1(ctx):
     for op in (">", ">="):
         sp = spec(prog, A1_SPEC % op, f, args=[R], no_inline=NI)
         want_c, want_i = sp.result.items
-        verdicts[op] = (_eq(C, want_c), _eq(I, want_i), want_c, want_i)
+        verdicts[op] = (_same(C, want_c), _same(I, want_i), want_c, want_i)
     op = ">" if all(verdicts[">"][:2]) or not all(verdicts[">="][:2]) else ">="
     okc, oki, want_c, want_i = verdicts[op]
     why = "the %s handed to Tree.from_dict is not the arg-max of log_p_one over every entry of every chain (scan from -inf, `>` or `>=`, score/entry/chain updated together): code %s ; specification %s"
@@ -336,7 +411,7 @@ def rule_A2(ctx):
     wants = {op: _stores_by_field(sp, hit_base) for op, sp in specs.items()}
 
     def agree(op):
-        return all(fld in got and _eq(got[fld], wants[op][fld]) for fld in FIELDS)
+        return all(fld in got and _same(got[fld], wants[op][fld]) for fld in FIELDS)
 
     op = ">" if agree(">") or not agree(">=") else ">="
     descr = {
@@ -349,7 +424,7 @@ def rule_A2(ctx):
         if fld not in got:
             ctx.fail("A2", "count_topology: " + descr[fld], ct.where(), "topologies[tree][%r] is never updated for a topology that is already present" % fld, construct=ct.qualname, stmt="hit: " + fld)
             continue
-        ctx.check(_eq(got[fld], wants[op][fld]), "A2", "count_topology: " + descr[fld], ct.where(), "update of %r on a hit differs from the specification: code %s ; specification %s" % (fld, show(got[fld])[:400], show(wants[op][fld])[:400]), construct=ct.qualname, stmt="hit: " + fld, detail="agrees with the `%s` update" % op)
+        ctx.check(_same(got[fld], wants[op][fld]), "A2", "count_topology: " + descr[fld], ct.where(), "update of %r on a hit differs from the specification: code %s ; specification %s" % (fld, show(got[fld])[:400], show(wants[op][fld])[:400]), construct=ct.qualname, stmt="hit: " + fld, detail="agrees with the `%s` update" % op)
     # ---- a new topology
     ev = _miss_store(ex, kd, kt, ct)
     sev = _miss_store(specs[op], kd, kt, ct)
@@ -375,13 +450,13 @@ def rule_A2(ctx):
 # ----------------------------------------------------------------------------- A3
 def _sort_info(Fk):
     """Outermost sort of a data-frame term: dict(by, ascending, reset, recv) or None."""
-    a = _atom(Fk)
+    a = _atom(_base_key(Fk))
     reset = False
     while a is not None and a[0] == "mcall" and a[1] == "reset_index":
         kw = dict(a[4])
         if "drop" in kw and _const_of_key(kw["drop"]) is True:
             reset = True
-        a = _atom(a[2])
+        a = _atom(_base_key(a[2]))
     if a is None or a[0] != "mcall" or a[1] != "sort_values":
         return None
     kw = dict(a[4])
@@ -422,7 +497,7 @@ def _row_read(k):
         else:
             return None
         if inner and _str_of_key(inner[1]) is not None:
-            return inner[0], _str_of_key(inner[1]), row
+            return _base_key(inner[0]), _str_of_key(inner[1]), row
         return None
     if col is not None:
         q = _sub_parts(base)
@@ -430,7 +505,7 @@ def _row_read(k):
         if q and isinstance(row, int) and not isinstance(row, bool):
             b = _atom(q[0])
             if b is not None and b[0] == "attr" and b[2] == "iloc":
-                return b[1], col, row
+                return _base_key(b[1]), col, row
     return None
 
 
@@ -493,18 +568,18 @@ def rule_A3(ctx):
         ctx.check(ok, "A3", "create_topology_dataframe: ids are assigned to the frame sorted by score", where, "the frame that receives the ids is sorted by %s ascending=%s; rank 0 must be the largest log_p_joint_max" % (info["by"], info["ascending"]), construct=f.qualname, stmt="ids on sorted frame", detail="sort_values(by='log_p_joint_max', ascending=False)")
         idx_atoms = [a for a in atoms_of(V, tag="attr") if a[2] == "index"]
         if idx_atoms:
-            same_frame = all(a[1] == vkey(F) for a in idx_atoms)
+            same_frame = all(_base_key(a[1]) == _base_key(vkey(F)) for a in idx_atoms)
             why = "ids are derived from the index of %s, not of the sorted frame they are attached to" % ", ".join(show_key(a[1])[:120] for a in idx_atoms) if not same_frame else "the sorted frame keeps its pre-sort index (neither ignore_index=True nor reset_index(drop=True)): `.index` is not the rank"
             ctx.check(same_frame and info["reset"], "A3", "create_topology_dataframe: index reset before ids are derived", where, why, construct=f.qualname, stmt="index reset")
         elif atoms_of(V, tag="call", name="range") or atoms_of(V, tag="call", name="len"):
             ctx.ok("A3", "create_topology_dataframe: index reset before ids are derived", where, "ids enumerate the rows positionally")
         else:
             raise AnalysisError("create_topology_dataframe: cannot tell how the rank in the id is derived (%s)" % show(V)[:160])
-    ctx.check(ex.result is not None and vkey(ex.result) == vkey(F), "A3", "create_topology_dataframe returns the ranked frame", f.where(), "the returned frame (%s) is not the one that was sorted and given ids" % show(ex.result)[:160], construct=f.qualname, stmt="return ranked frame")
+    ctx.check(ex.result is not None and _base_key(vkey(ex.result)) == _base_key(vkey(F)), "A3", "create_topology_dataframe returns the ranked frame", f.where(), "the returned frame (%s) is not the one that was sorted and given ids" % show(ex.result)[:160], construct=f.qualname, stmt="return ranked frame")
     ctx.analysed(f)
     # ---- frequency arm of the MAP command
     m = prog.fn(PT + "write_map_results")
-    if any(isinstance(n, (ast.Break, ast.Return)) for l in ast.walk(m.node) if isinstance(l, (ast.For, ast.While)) for n in ast.walk(l)):
+    if _loops_and_exits(prog, m)[1]:
         # A1 has reported the early exit as a violation; the interpreter cannot unroll such a loop
         ctx.note("write_map_results has an early exit inside a loop (violation reported by A1); its frequency arm is not analysed")
         _lower_min(ctx, "A3")
@@ -659,7 +734,7 @@ def _archive_plumbing(ctx):
     else:
         raise AnalysisError("cli.topology_report --top-trees default %s is not a symbol or a number" % u(dflt))
     ok1, why1, ok2, why2 = True, "", True, ""
-    report_frames = {vkey(e.recv) for e in ex.calls(".to_csv")}
+    report_frames = {_base_key(vkey(e.recv)) for e in ex.calls(".to_csv")}
     for e in evs:
         b = _bind(prog, e, arch)
         for p in ("topology_df", "results", "top_trees", "topologies_dict"):
@@ -673,7 +748,7 @@ def _archive_plumbing(ctx):
             ok1, why1 = False, "topologies_dict (%s) is not create_topology_dict_from_trace(<the results handed over>)" % show(b["topologies_dict"])[:160]
         elif not made or not all(contains_key(a, dk) for a in made):
             ok1, why1 = False, "topology_df (%s) is not the ranking of the dictionary that is archived" % show(b["topology_df"])[:160]
-        elif report_frames and vkey(b["topology_df"]) not in report_frames:
+        elif report_frames and _base_key(vkey(b["topology_df"])) not in report_frames:
             ok1, why1 = False, "the ranking used for the archive is not the frame written as the report"
         # top_trees: the parameter, or infinity under `top_trees == <CLI default>`
         t = b["top_trees"]
@@ -976,6 +1051,12 @@ SELFTEST = [
     {"name": "benign-A1-swap-operands", "kind": "benign", "file": _P, "old": 'if x["log_p_one"] > map_val:', "new": 'if map_val < x["log_p_one"]:'},
     {"name": "benign-A1-greater-equal", "kind": "benign", "file": _P, "old": 'if x["log_p_one"] > map_val:', "new": 'if x["log_p_one"] >= map_val:'},
     {"name": "benign-A1-split-restore", "kind": "benign", "file": _P, "old": '    tree = Tree.from_dict(results[chain_num]["trace"][map_iter]["tree"])', "new": '    best_chain = results[chain_num]\n    best_entry = best_chain["trace"][map_iter]\n    print("MAP entry", map_iter)\n    tree = Tree.from_dict(best_entry["tree"])'},
+    {"name": "benign-A1-continue-style", "kind": "benign", "file": _P, "old": '                if x["log_p_one"] > map_val:\n                    map_iter = i\n\n                    map_val = x["log_p_one"]\n                    chain_num = curr_chain_num\n', "new": '                if x["log_p_one"] <= map_val:\n                    continue\n                map_iter = i\n                map_val = x["log_p_one"]\n                chain_num = curr_chain_num\n'},
+    {"name": "A1-continue-style-inverted", "kind": "break", "rule": "A1", "file": _P, "old": '                if x["log_p_one"] > map_val:\n                    map_iter = i\n\n                    map_val = x["log_p_one"]\n                    chain_num = curr_chain_num\n', "new": '                if x["log_p_one"] >= map_val:\n                    continue\n                map_iter = i\n                map_val = x["log_p_one"]\n                chain_num = curr_chain_num\n'},
+    {"name": "benign-A1-extract-helper", "kind": "benign", "edits": [
+        {"file": _P, "old": "def create_topology_dict_from_trace(trace):\n", "new": 'def _scan(results):\n    best = (float("-inf"), 0, 0)\n    for c, r in results.items():\n        for i, x in enumerate(r["trace"]):\n            if x["log_p_one"] > best[0]:\n                best = (x["log_p_one"], i, c)\n    return best[1], best[2]\n\n\ndef create_topology_dict_from_trace(trace):\n'},
+        {"file": _P, "old": '        for curr_chain_num, chain_results in results.items():\n            for i, x in enumerate(chain_results["trace"]):\n                if x["log_p_one"] > map_val:\n                    map_iter = i\n\n                    map_val = x["log_p_one"]\n                    chain_num = curr_chain_num\n', "new": "        map_iter, chain_num = _scan(results)\n"},
+    ]},
     # a max()-based rewrite is a different algorithm shape: reported as ANALYSIS-ERROR by design, never as a violation
     {"name": "limit-A1-max-rewrite", "kind": "benign", "documented_limit": True, "file": _P, "old": '        for curr_chain_num, chain_results in results.items():\n            for i, x in enumerate(chain_results["trace"]):\n                if x["log_p_one"] > map_val:\n                    map_iter = i\n\n                    map_val = x["log_p_one"]\n                    chain_num = curr_chain_num\n', "new": '        map_val, chain_num, map_iter = max((x["log_p_one"], c, i) for c, r in results.items() for i, x in enumerate(r["trace"]))\n'},
     # ---- A2
